@@ -50,7 +50,8 @@ PROPS = {
     },
     "C01": {
         "title": "SimpleDB reads like a map, whatever flushes, compactions and restarts happen",
-        "streams": [{"name": "db", "quick": 250, "thorough": 12000, "thorough_seeds": 3}],
+        "streams": [{"name": "db", "quick": 250, "thorough": 12000, "thorough_seeds": 3},
+                    {"name": "stack", "quick": 150, "thorough": 600, "thorough_seeds": 2}],
         "technique": "Lean 4 proof (refinement of the layer model to a map by induction over arbitrary step lists: programs x schedules x configurations) + differential correspondence on real SimpleDB sessions",
         "level": "proof",
         "design_ref": "§5 C01",
